@@ -267,6 +267,15 @@ fn star_set(r: &mut Rng) -> Vec<Vec<[f64; 2]>> {
     set
 }
 
+
+/// k polygons stacked in disjoint horizontal bands of a 12-wide lattice (valid by construction when each
+/// polygon is simple): many simultaneously active edges (> 11, so the B-tree of active edges has an
+/// internal node) and many events sharing an x-coordinate
+fn band_set(r: &mut Rng) -> Vec<Vec<[f64; 2]>> {
+    let k = r.range(5, 10) as usize;
+    (0..k).map(|i| { let n = r.range(3, 4) as usize; (0..n).map(|_| [r.range(0, 11) as f64, (3 * i) as f64 + r.range(0, 2) as f64]).collect() }).collect()
+}
+
 fn random_soup(r: &mut Rng) -> Vec<Vec<[f64; 2]>> {
     let np = 1 + r.below(3) as usize;
     let side = *r.pick(&[3i64, 4, 6, 10]);
@@ -343,6 +352,10 @@ pub fn run(o: &Opts) -> Report {
     }
     for _ in 0..(if o.thorough { 2000000 } else { 200000 }) { extra.push(("soup", random_soup(&mut rng))); }
     for _ in 0..(if o.thorough { 400000 } else { 60000 }) { extra.push(("star", star_set(&mut rng))); }
+    for _ in 0..(if o.thorough { 400000 } else { 60000 }) { extra.push(("bands", band_set(&mut rng))); }
+    // the six-polygon witness of the > 11 active edges defect (repaired: see known_findings.jsonl)
+    extra.push(("corpus", vec![vec![[1.0, 10.0], [5.0, 10.0], [3.0, 9.0], [8.0, 11.0]], vec![[3.0, 6.0], [1.0, 8.0], [5.0, 7.0]], vec![[9.0, 2.0], [11.0, 0.0], [5.0, 2.0], [8.0, 2.0]],
+        vec![[1.0, 17.0], [2.0, 16.0], [9.0, 16.0]], vec![[11.0, 14.0], [10.0, 12.0], [10.0, 13.0], [6.0, 13.0]], vec![[5.0, 5.0], [0.0, 3.0], [9.0, 4.0], [7.0, 5.0]]]));
     for _ in 0..(if o.thorough { 20000 } else { 3000 }) { extra.push(("special", special_coords(&mut rng))); }
     for _ in 0..(if o.thorough { 400000 } else { 60000 }) { extra.push(("extreme", extreme_lattice(&mut rng))); }
     extra.push(("empty", vec![]));
@@ -354,14 +367,14 @@ pub fn run(o: &Opts) -> Report {
             r.cases += 1;
             r.count(&format!("gen:{}", name));
             r.count(&format!("impl:{}", out.class()));
-            if *name != "soup" && *name != "special" && *name != "extreme" && *name != "star" && r.samples.len() < 6 { r.sample(format!("{} {} -> {}", name, text(polys), out.class())); }
+            if *name != "soup" && *name != "special" && *name != "extreme" && *name != "star" && *name != "bands" && r.samples.len() < 6 { r.sample(format!("{} {} -> {}", name, text(polys), out.class())); }
         }
         judge(polys, &out, &rep, &counts);
         // coordinates whose differences overflow produce NaN ordinates/gradients; `f64::total_cmp` then
         // depends on the SIGN of the NaN, which Lean's `Float` cannot observe: such inputs are judged by
         // the implementation-side oracle (no panic, error classification) only
         let overflowing = polys.iter().flatten().any(|v| v[0].abs() > 8e307 || v[1].abs() > 8e307);
-        if !overflowing && ((*name != "soup" && *name != "extreme" && *name != "star") || rng.chance(0.05)) { model_reqs.lock().unwrap().push((request(polys), out.wire(), text(polys))); }
+        if !overflowing && ((*name != "soup" && *name != "extreme" && *name != "star" && *name != "bands") || rng.chance(if *name == "bands" { 0.2 } else { 0.05 })) { model_reqs.lock().unwrap().push((request(polys), out.wire(), text(polys))); }
     }
     let mut rep = rep.into_inner().unwrap();
     rep.nontrivial = counts.valid.load(Ordering::Relaxed) + counts.crossing.load(Ordering::Relaxed);
@@ -376,6 +389,15 @@ pub fn run(o: &Opts) -> Report {
         let answers = run_driver_par(&o.drv, &lines, o.jobs);
         for ((_, imp, txt), ans) in reqs.iter().zip(answers.iter()) {
             rep.model_compared += 1;
+            // ghost flag of the model: some ordered lookup saw the stored order of the active edges disagree
+            // with the comparator, so the list scan of the model no longer stands for the B-tree search
+            let (ans, mono) = match ans.strip_suffix(" mono=0") { Some(a) => (a.to_string(), false), None => (ans.clone(), true) };
+            let ans = &ans;
+            if !mono {
+                let valid = parse_text(txt).and_then(|p| to_int(&p)).map_or(false, |ip| ip.iter().all(|q| q.len() >= 3) && is_valid_set(&ip));
+                rep.count(if valid { "model:order-inconsistent-on-valid" } else { "model:order-inconsistent-on-invalid" });
+                if valid { rep.finding("model", &["C03", "C04"], "stored-order-inconsistent", format!("tri {}", txt), "an ordered lookup in the set of active edges met comparison results that are not monotone along the stored order: the B-tree search of the implementation is no longer determined by the model".to_string()); }
+            }
             if imp != ans { rep.finding("model", &["C03", "C04", "C15", "C16"], "sweep-differs", format!("tri {}", txt), format!("impl: {} | model: {}", imp, ans)); }
         }
         // the same model in exact arithmetic (XQ instance, the one the theorems are about):
@@ -386,6 +408,7 @@ pub fn run(o: &Opts) -> Report {
         let mut agree = 0u64; let mut differ_invalid = 0u64;
         for ((req, imp, txt), ans) in reqs.iter().zip(qans.iter()) {
             let _ = req;
+            let ans = &ans.strip_suffix(" mono=0").unwrap_or(ans).to_string();
             if imp == ans { agree += 1; continue; }
             // -0.0 vs 0.0 in payloads is not modelled by XQ
             if imp.replace("8000000000000000", "0000000000000000") == *ans { agree += 1; continue; }
